@@ -32,6 +32,10 @@ def entry(e, kind):
     return S["aS"]
   if e == "D":
     return {"relu": S["aDr"], "leakyrelu": S["aDl"]}
+  if e == "Dr":
+    return {"relu": S["aDr"]}
+  if e == "Dl":
+    return {"leakyrelu": S["aDl"]}
   if e == "N":
     return {k: S["qN"] for k in ("gamma_quantizer", "beta_quantizer", "mean_quantizer", "variance_quantizer")}
   raise ValueError(e)
@@ -55,7 +59,7 @@ def name_entries(kind):
     return ["absent", "empty", "A", "B"]
   if kind == "BatchNormalization":
     return ["absent", "N", "empty"]
-  return ["absent", "S", "D"]
+  return ["absent", "S", "D", "Dr", "Dl"]
 
 
 def build(model):
@@ -78,7 +82,7 @@ def build(model):
     elif k == "Activation":
       x = L.Activation(l["act"], name=l["name"])(x)
     elif k == "ReLU":
-      x = L.ReLU(name=l["name"])(x)
+      x = L.ReLU(max_value=6.0, name=l["name"])(x)          # non-default parameters: they have to survive
     elif k == "LeakyReLU":
       x = L.LeakyReLU(alpha=0.125, name=l["name"])(x)
     elif k == "BatchNormalization":
@@ -173,6 +177,26 @@ def project(qm, model):
   return res
 
 
+QUANT_KEYS = ("quantizer", "activation", "kernel_range", "bias_range", "constraint", "initializer", "regularizer", "name")
+
+
+def hyper_ok(km, qm):
+  """Non-quantization hyper-parameters: a layer that keeps its class keeps its whole configuration; a converted layer
+  keeps every configuration entry of the source layer that is not about quantization."""
+  for a, b in zip(km.layers, qm.layers):
+    ca, cb = a.get_config(), b.get_config()
+    if a.__class__.__name__ == b.__class__.__name__:
+      if json.dumps(ca, sort_keys=True, default=str) != json.dumps(cb, sort_keys=True, default=str):
+        return 0
+    elif b.__class__.__name__ != "QActivation":
+      for k, v in ca.items():
+        if any(w in k for w in QUANT_KEYS) or k not in cb:
+          continue
+        if json.dumps(v, sort_keys=True, default=str) != json.dumps(cb[k], sort_keys=True, default=str):
+          return 0
+  return 1
+
+
 def main():
   _, prefix, tier, seed, shard, nshards = sys.argv[1:7]
   seed, shard, nshards = int(seed), int(shard), int(nshards)
@@ -186,7 +210,7 @@ def main():
   qn = {"Dense": "QDense", "Conv2D": "QConv2D", "DepthwiseConv2D": "QDepthwiseConv2D", "Activation": "QActivation",
         "ReLU": "QActivation", "LeakyReLU": "QActivation", "BatchNormalization": "QBatchNormalization"}
   class_entries = {"QDense": ["absent", "empty", "A", "B"], "QConv2D": ["absent", "empty", "A", "B"],
-                   "QDepthwiseConv2D": ["absent", "empty", "A", "B"], "QActivation": ["absent", "S", "D"],
+                   "QDepthwiseConv2D": ["absent", "empty", "A", "B"], "QActivation": ["absent", "S", "D", "Dr", "Dl"],
                    "QBatchNormalization": ["absent", "N"]}
   systematic = [(dict(l, name="n1"), ne, ce) for l in alpha for ne in name_entries(l["kind"]) for ce in class_entries[qn[l["kind"]]]]
   systematic = [c for j, c in enumerate(systematic) if j % nshards == shard]
@@ -207,7 +231,7 @@ def main():
       d = {k: "absent" for k in KEYS}
       for k in ("QDense", "QConv2D", "QDepthwiseConv2D"):
         d[k] = rnd.choice(["absent", "absent", "empty", "A", "B"])
-      d["QActivation"] = rnd.choice(["absent", "absent", "S", "D"])
+      d["QActivation"] = rnd.choice(["absent", "absent", "S", "D", "Dr", "Dl"])
       d["QBatchNormalization"] = rnd.choice(["absent", "absent", "N"])
       for l in model:
         d[l["name"]] = rnd.choice(["absent", "absent"] + name_entries(l["kind"]))
@@ -228,11 +252,12 @@ def main():
     json0 = km.to_json()
     w0 = [w.copy() for w in km.get_weights()]
     transfer = rnd.random() < 0.7
-    ev = {"model": model, "dict": d, "exc": 0, "res": [], "topo": 1, "src": 1, "dct": 1, "wts": 1, "transfer": int(transfer)}
+    ev = {"model": model, "dict": d, "exc": 0, "res": [], "topo": 1, "hyper": 1, "src": 1, "dct": 1, "wts": 1, "transfer": int(transfer)}
     try:
       qm = qutils.model_quantize(km, qcfg, ABITS, custom_objects=co, transfer_weights=transfer)
       ev["res"] = project(qm, model)
       names0 = [l.name for l in km.layers]
+      ev["hyper"] = hyper_ok(km, qm)
       ev["topo"] = int(names0 == [l.name for l in qm.layers] and
                        [tuple(l.output_shape) for l in km.layers] == [tuple(l.output_shape) for l in qm.layers])
       if transfer:
